@@ -120,7 +120,7 @@ def sx_str(*a, **k):
             return format_value(x, "r", "")
         return x.decode(enc)
     if isinstance(x, SymInt) and len(a) == 1:
-        return builtins.str(x.__index__())
+        return format_value(x, None, "")
     if isinstance(x, SymBool) and len(a) == 1:
         return builtins.str(bool(x))
     if len(a) == 1 and not k and has_sym(x):
@@ -305,7 +305,9 @@ def sx_mod(l, r):
                 v = args[ai]
                 ai += 1
             if has_sym(v):
-                if isinstance(v, SymInt) and conv in "dis":
+                if isinstance(v, SymInt) and conv in "dis" and active() and getattr(E(), "opaque_ints", False):
+                    out.append(format_value(v, None, ""))
+                elif isinstance(v, SymInt) and conv in "dis":
                     v = v.__index__()
                     out.append(m.group(0).replace("(%s)" % key, "") % v if key else m.group(0) % v)
                 elif conv == "s" and not flags and not width and not prec:
